@@ -30,6 +30,27 @@ CHECKS = {
         ref="§4 C11"),
 }
 
+CHECKS.update({
+    "C03": dict(
+        text="Theorems cell_le_true/C03_getitem/C03_query prove, for every history tree, hash, width and depth, that every stored count is ≤ the true count of the stored key "
+             "identity, hence hh[key] and every reported pair never over-count and a never-added key is never reported; padKey_inj proves (padded bytes, length) = identity. "
+             "The run re-checks the proofs, compares cells/answers with the model on NUL/length-sensitive keys and evaluates the oracle on real values; width-1 sequences enumerated.",
+        tech="Lean 4 proof (cell invariant by induction over history trees) + differential correspondence",
+        ref="§4 C03"),
+    "C04": dict(
+        text="Theorems C04_phi/C04_getitem/C04_query/C04_major prove the Boyer-Moore potential bound 2f - W_r ≤ hh[key] for every history tree absent saturation (total weight ≤ 2^32-1), "
+             "that query contains such a key, and that a strict-majority key is reported first, strictly ahead of all others. The run re-checks the proofs, compares with the model and "
+             "evaluates the bounds on real values for every key after every operation; width-1 orderings and partitions are enumerated.",
+        tech="Lean 4 proof (potential-function invariant, super-additive under merge) + differential correspondence",
+        ref="§4 C04"),
+    "C13": dict(
+        text="Theorems query_length/nodup/sorted/counts/prefix/complete characterise the answer; C13_fresh proves for EVERY sequence of add/merge/query/regenerate operations that the cached "
+             "answer equals the answer recomputed from the current cells (invariant: cache valid or detectably stale). The run re-checks the proofs and compares every real answer "
+             "(cache hit and miss paths counted) with the model, with the model's fresh recomputation and with a freshly loaded real copy.",
+        tech="Lean 4 proof (cache-freshness invariant over operation sequences; sortedness/permutation lemmas) + differential correspondence",
+        ref="§4 C13"),
+})
+
 NOT_YET = {}
 
 
